@@ -1,3 +1,4 @@
+mod clock;
 mod prng;
 mod report;
 mod tables;
@@ -32,7 +33,7 @@ fn main() {
     #[cfg(feature = "rq-std")]
     if args[1] == "C17SEQ" {
         // the sequential C17 engine runs under the clock interposer (re-executes this process once)
-        c17seq::clock::ensure(&Ctx::from_env("C17", &args[2]).verif_dir);
+        clock::ensure(&Ctx::from_env("C17", &args[2]).verif_dir);
     }
     let code = match args[1].as_str() {
         "replay" => {
@@ -45,6 +46,10 @@ fn main() {
                 std::process::exit(2)
             });
             doc["__path"] = serde_json::json!(args[2]);
+            if let Some(r) = doc["clock_rate"].as_u64() {
+                // found under a skewed clock: replayed under the same one
+                clock::ensure_rate(&Ctx::from_env("", "quick").verif_dir, Some(r));
+            }
             let prop = doc["property"].as_str().unwrap_or("").to_string();
             let ctx = Ctx::from_env(&prop, "quick");
             match doc["engine"].as_str().unwrap_or("") {
@@ -93,9 +98,27 @@ fn main() {
                     c.property = "C17".into();
                     c17seq::run(&c)
                 }
-                "C02" => c02::run(&ctx),
+                "C02" | "C03" => {
+                    if ctx.slice_rate.is_some() {
+                        // self-check of the skewed clock: 2 ms of real sleep must look like minutes
+                        let a = std::time::Instant::now();
+                        std::thread::sleep(std::time::Duration::from_millis(2));
+                        if a.elapsed().as_secs() < report::SKEW_RATE / 1000 {
+                            eprintln!("HARNESS-ERROR: the clock interposer does not speed up std::time::Instant");
+                            std::process::exit(2);
+                        }
+                    }
+                    let slice = report::spawn_skew_slice(&ctx, &args[2]);
+                    let rc = if prop == "C02" { c02::run(&ctx) } else { c03::run(&ctx) };
+                    match slice {
+                        Some(s) => {
+                            let rc2 = s.finish(&ctx);
+                            if rc == 2 || rc2 == 2 { 2 } else { rc.max(rc2) }
+                        }
+                        None => rc,
+                    }
+                }
                 "C07" => c07::run(&ctx),
-                "C03" => c03::run(&ctx),
                 "C01" => netcheck::run(&ctx, sim::Profile::C01),
                 "C08" => netcheck::run(&ctx, sim::Profile::C08),
                 "C18" => netcheck::run(&ctx, sim::Profile::C18),
